@@ -1354,7 +1354,9 @@ impl CodeGenerator {
             IRNode::Join { .. } => true,
             IRNode::Distinct { input } => Self::contains_join(input),
             IRNode::Union { inputs } => inputs.iter().any(Self::contains_join),
-            IRNode::Aggregate { input, .. } => Self::contains_join(input),
+            // Grouping needs every row of a group on the same worker: per-partition
+            // aggregates would be partial counts/sums, so aggregation is not partition-safe.
+            IRNode::Aggregate { .. } => true,
             IRNode::Antijoin { .. } => true, // Antijoin is also a join-like operation
             IRNode::Compute { input, .. } => Self::contains_join(input),
             IRNode::FlatMap { input, .. } => Self::contains_join(input),
